@@ -15,4 +15,16 @@ CHECKS = {
                 "bcrypt and yaml.v3 are exercised, not modelled. No axioms.",
         "technique": "Coq proof over executable model + differential correspondence check (vm_compute) against the real handlers",
     },
+    "C16": {
+        "text": "Theorems (Props/C16.v) over tables REGENERATED from hotline/access.go on every run: for ALL 2^64 bitmaps and every bit, "
+                "load(save(b)) has bit i iff b has it and i is one of the 40 defined privileges (also as the equation load(save b) = mask b); "
+                "the legacy array form loads the same bytes; the YAML key of every bit equals the protocol reference table (both directions); "
+                "the Access* constants are the protocol numbers. Generic lemma: tables_consistent -> save/load law; the finite consistency "
+                "obligation is discharged by computation on the generated tables, so a swapped/missing/wrong entry in either hand-written Go "
+                "table breaks a proof obligation. Correspondence through the real YAMLAccountManager + yaml.v3: all 64 single bits in both "
+                "formats, pairs of defined bits, random bitmaps, migration of legacy files, and the user-access field/Authorize at a real login.",
+        "note": "Trusted: Coq kernel; translator (go/ast, ~300 lines; unknown shapes become bit 999 and fail the obligation); yaml.v3 behaviour "
+                "(struct fields marshalled in order, bool decoding) observed not verified; reference table transcribed by hand from the protocol PDF. No axioms.",
+        "technique": "Coq proof over translator-generated tables + differential correspondence through the real YAML account manager",
+    },
 }
